@@ -25,7 +25,8 @@ TRACK = ["skfem.quadrature:get_quadrature", "skfem.quadrature:get_quadrature_tet
          "skfem.quadrature:get_quadrature_point"]
 REQUIRED_MONITORS = ["moments-exact", "weights-sum-to-measure", "nodes-in-closed-cell",
                      "unsupported-order-raises", "spellings-agree", "rule-after-caller-modified-earlier-result"]
-REQUIRED_REACH = ["raise-path:tri", "raise-path:tet", "earlier-result-modified-in-place"]
+REQUIRED_REACH = ["raise-path:tri", "raise-path:tet", "earlier-result-modified-in-place", "orders-far-beyond-the-tables",
+                  "second-pass-other-order", "every-registry-element-as-first-argument"]
 
 CELLS = {
     # name: (refdom attr, dim, kind, measure)
@@ -207,6 +208,115 @@ def sweep_cell(cell):
     return fn
 
 
+def far_orders(ctx, k):
+    """Orders far beyond the tables of the simplex / prism rules: an exception or a rule that keeps the promise, never a
+    weaker rule (a clamp or a .get(n, last) fallback that only acts above the swept range)."""
+    from skfem import quadrature, refdom as rd
+    for cell in ("tri", "tet", "wedge"):
+        refdom = getattr(rd, CELLS[cell][0])
+        # (no huge orders for the prism: its line factor is a Gauss rule of any order, whose cost grows with the order)
+        for n in list(range(23, 65)) + ([100, 255, 2 ** 15, 2 ** 31 - 1, -1000] if cell != "wedge" else [-1000]):
+            try:
+                X, W = quadrature.get_quadrature(refdom, n)
+            except Exception as e:
+                ctx.check("unsupported-order-raises", isinstance(e, (NotImplementedError, KeyError, ValueError)),
+                          mech=f"raise-type:{cell}", cell=cell, order=n, error=repr(e))
+                continue
+            if n > 64:
+                ctx.check("unsupported-order-raises", False, mech=f"huge-order-accepted:{cell}", cell=cell, order=n, nodes=int(np.size(W)))
+                continue
+            judge_rule(ctx, cell, n, np.asarray(X, dtype=float), np.asarray(W, dtype=float))
+    ctx.reached("orders-far-beyond-the-tables")
+
+
+def spellings(ctx, k):
+    """Other spellings of the same request: integer types of the order, every element of the registry (and wrappers) as
+    the first argument, the table functions called directly, requests in descending / shuffled order."""
+    from skfem import quadrature, refdom as rd
+    from ..gen import elements as EL
+    rng = ctx.rng()
+    first = {}
+    for cell, (refdom_name, d, kind, measure) in CELLS.items():
+        refdom = getattr(rd, refdom_name)
+        orders = [n for n in range(0, min(cap(cell, ctx), 12) + 1)]
+        for n in orders:
+            try:
+                first[(cell, n)] = quadrature.get_quadrature(refdom, n)
+            except Exception:
+                first[(cell, n)] = None
+        for n in rng.permutation(orders)[:6]:
+            n = int(n)
+            base = first[(cell, n)]
+            for nm, nn in (("int32", np.int32(n)), ("int16", np.int16(n)), ("uint8", np.uint8(n)) if n >= 0 else ("int8", np.int8(n)),
+                           ("intp", np.intp(n)), ("float", float(n)), ("float64", np.float64(n))):
+                try:
+                    got = quadrature.get_quadrature(refdom, nn)
+                except Exception:
+                    if base is not None and not nm.startswith("float"):
+                        ctx.check("spellings-agree", False, mech=f"integer-order-rejected:{nm}", cell=cell, order=n)
+                    else:
+                        ctx.tolerated("spellings-agree")
+                    continue
+                if base is None:
+                    ctx.check("spellings-agree", False, mech=f"order-accepted-only-as:{nm}", cell=cell, order=n)
+                    continue
+                same = np.array_equal(got[0], base[0]) and np.array_equal(got[1], base[1])
+                if nm.startswith("float") and not same:
+                    # an integral float may get another rule, but never a weaker one
+                    judge_rule(ctx, cell, n, np.asarray(got[0], dtype=float), np.asarray(got[1], dtype=float))
+                else:
+                    ctx.check("spellings-agree", same, mech=f"spelling:order-as-{nm}", cell=cell, order=n)
+    # descending and shuffled second pass: bit for bit the first answers
+    keys = list(first)
+    for idx in list(range(len(keys) - 1, -1, -1)) + [int(i) for i in rng.permutation(len(keys))]:
+        cell, n = keys[idx]
+        refdom = getattr(rd, CELLS[cell][0])
+        try:
+            got = quadrature.get_quadrature(refdom, n)
+        except Exception:
+            got = None
+        base = first[(cell, n)]
+        ctx.check("spellings-agree", (got is None) == (base is None) and (got is None or (
+            np.array_equal(got[0], base[0]) and np.array_equal(got[1], base[1]))), mech="answer-depends-on-request-order",
+            cell=cell, order=n)
+    ctx.reached("second-pass-other-order")
+    # every element of the registry (and its wrappers) as first argument gives the rule of its cell
+    kind2cell = {"line": "line", "tri": "tri", "quad": "quad", "tet": "tet", "hex": "hex", "wedge": "wedge"}
+    for kd in G_KINDS:
+        for rec in EL.all_for_kind(kd):
+            for n in (2, 5):
+                base = first.get((kind2cell[kd], n))
+                if base is None:
+                    continue
+                try:
+                    got = quadrature.get_quadrature(rec.make(), n)
+                except Exception as e:
+                    ctx.check("spellings-agree", False, mech="element-as-first-argument-raises", elem=rec.name, order=n, error=repr(e)[:120])
+                    continue
+                ctx.check("spellings-agree", np.array_equal(got[0], base[0]) and np.array_equal(got[1], base[1]),
+                          mech="element-gets-another-cells-rule", elem=rec.name, order=n)
+    ctx.reached("every-registry-element-as-first-argument")
+    # the table functions called directly
+    for fn, cell in (("get_quadrature_tri", "tri"), ("get_quadrature_tet", "tet"), ("get_quadrature_line", "line")):
+        f = getattr(quadrature, fn, None)
+        if f is None:
+            continue
+        for n in (1, 2, 4, 6):
+            base = first.get((cell, n))
+            try:
+                got = f(n)
+            except Exception:
+                got = None
+            if base is None or got is None:
+                ctx.check("spellings-agree", (base is None) == (got is None), mech=f"direct-table-function-differs:{fn}", order=n)
+                continue
+            ctx.check("spellings-agree", np.array_equal(np.asarray(got[0]), np.asarray(base[0])) and
+                      np.array_equal(np.asarray(got[1]), np.asarray(base[1])), mech=f"direct-table-function-differs:{fn}", order=n)
+
+
+G_KINDS = ("line", "tri", "quad", "tet", "hex", "wedge")
+
+
 def unknown_refdom(ctx, k):
     """A reference domain the dispatcher does not know must raise, not fall through."""
     from skfem import quadrature
@@ -226,4 +336,6 @@ SUITE = True   # thorough tier also runs the repository suite with this oracle a
 FAMILIES = [Family("sweep-" + c, sweep_cell(c), quick=1, thorough=1,
                    budget={"quick": 60, "thorough": 300}) for c in CELLS]
 FAMILIES.append(Family("unknown-refdom", unknown_refdom, 1, 1))
+FAMILIES.append(Family("far-orders", far_orders, 1, 1, budget={"quick": 60, "thorough": 120}))
+FAMILIES.append(Family("spellings", spellings, 1, 2, budget={"quick": 60, "thorough": 120}))
 NPROC = {"quick": 1, "thorough": 2}
